@@ -103,6 +103,24 @@ class Summ:
                     continue
                 if inner is not None and inner[0] in ("const",):
                     continue
+                if inner is not None and inner[0] == "phi" and f.defs().get(inner[1]):
+                    # Ok(if eof { Some(x) } else { None }): every None stored into the returned slot sits under !eof
+                    good, cls = True, True
+                    for d in f.defs().get(inner[1], []):
+                        de = f.def_expr(d, 4)
+                        if is_agg(de, r"Option::Some$"):
+                            continue
+                        if is_agg(de, r"Option::None$"):
+                            n_sites += 1
+                            g, wit = self.guarded_site(f, d[1])
+                            self.ck.ob("C15-a.need-more-guarded", "%s" % f.npath, g, f, d[1],
+                                       "`None` (need more input) stored into the returned value only while !eof", witness=f.path_lines(wit))
+                            good = good and g
+                            continue
+                        cls = False
+                    if cls:
+                        ok = ok and good
+                        continue
             # delegation: the returned value is (derived from) a callee's result
             cs = [c for c in walk(e) if c[0] == "call" and rx(r"^actix_multipart::").search(c[1] or "")]
             if e[0] == "call" and rx(r"from_residual$").search(e[1] or ""):
